@@ -360,6 +360,29 @@ func runC06(w *World, r *Report) {
 			waits := CallsIn(en, false, "queue.Request).Wait")
 			ok = ok && okRm && len(waits) == 1 && domInstr(def, waits[0])
 		}
+		// ... and nowhere else in enqueue: every removeRequest (called, deferred or started as a
+		// goroutine, also from a closure) lies behind the acceptance
+		if len(slot) == 1 {
+			var stray []string
+			for _, g := range Anons(en) {
+				for _, c := range CallsIn(g, false, "queueProcessor).removeRequest") {
+					anchor := ssa.Instruction(c)
+					if g != en {
+						// a closure: what matters is where the closure is created/deferred
+						Instrs(en, func(in ssa.Instruction) {
+							if mc, isMC := in.(*ssa.MakeClosure); isMC && mc.Fn == ssa.Value(g) {
+								anchor = mc
+							}
+						})
+					}
+					if !condsHave(expandConds(CondsOf(anchor.Block())), true, func(v ssa.Value) bool { return v == slot[0].Value() }) {
+						stray = append(stray, w.Pos(c.Pos()))
+					}
+				}
+			}
+			ok = ok && len(stray) == 0
+			_ = stray
+		}
 		r.Check(ok, "R6", "enqueue/cleanup-registered-after-acceptance", en.Pos(), "the deferred removeRequest is registered only on the enqueueIfSlotAvailable()==true edge and before Wait(): a rejected arrival must not decrement the waiter count")
 		for _, alt := range ReturnAlts(en, 0) {
 			if b, isC := constBool(alt.Val); isC {
@@ -477,6 +500,19 @@ func runC06(w *World, r *Report) {
 	r.Min("R5", 1)
 	r.Min("R6", 2)
 	c06NextExpiry(w, r)
+	// arrival order inside one priority is decided by the enqueue timestamp: it has the clock's
+	// full (nanosecond) resolution, so a burst inside one millisecond still orders
+	if enq := w.Fn(pkgLctx, "memoryQueue.Enqueue"); enq != nil {
+		var ts ssa.Value
+		Instrs(enq, func(in ssa.Instruction) {
+			if a, ok := in.(*ssa.Alloc); ok && structOf(a.Type()) == "Item" {
+				if v := litField(a, "timestamp"); v != nil {
+					ts = v
+				}
+			}
+		})
+		r.Check(ts != nil && isCallTo0(ts, "(time.Time).UnixNano"), "R5", "Enqueue/tie-break-timestamp-has-nanosecond-resolution", enq.Pos(), "Item.timestamp = %s (want time.Now().UnixNano())", trunc(Path(ts), 60))
+	}
 	c06RequestStateMachine(w, r)
 	c06WatchListOwnership(w, r)
 	r.Min("R7", 11)
